@@ -61,7 +61,7 @@ def oracle(edges, v, dt, rc, idx):
         bad.append('index %d outside [-1, %d]' % (idx, n - 1))
     for k in range(n):
         in_closed_range = rc or fv < top_edge(edges) - band(n, edges, dt)
-        if fv >= E[k] and idx < k and in_closed_range:
+        if fv >= E[k] and idx < k and (in_closed_range or idx != -1):
             bad.append('value %r >= edge[%d]=%r but index %d < %d' % (v, k, edges[k], idx, k))
             break
     for k in range(n):
@@ -69,7 +69,7 @@ def oracle(edges, v, dt, rc, idx):
             bad.append('value %r is more than the round-off band below edge[%d]=%r but index %d >= %d'
                        % (v, k, edges[k], idx, k))
             break
-    if not rc and fv >= top_edge(edges) + band(n, edges, dt) and idx != -1:
+    if not rc and fv >= top_edge(edges) and idx != -1:
         bad.append('closed mode: value %r beyond the last bin but index %d' % (v, idx))
     return bad
 
@@ -94,7 +94,8 @@ def replay(cex):
         msgs = []
         for v, i in zip(vals, out):
             vv = dt(v)
-            msgs += oracle(cex['edges'], float(vv) if cex['dt'] != 'i8' else int(vv), cex['dt'], cex['rc'], int(i))
+            msgs += oracle(cex.get('oracle_edges', cex['edges']), float(vv) if cex['dt'] != 'i8' else int(vv), cex['dt'],
+                           cex['rc'], int(i))
         if len(vals) == 2:
             a, b = (dt(vals[0]), dt(vals[1]))
             i0, i1 = int(out[0]), int(out[1])
@@ -225,15 +226,16 @@ def _violation_terms(edges, v64, idx, rc, dt):
     top = top_edge(edges)
     inrange = z3.BoolVal(True) if rc else C.fp_below(v64, top - band(n, edges, dt))
     for k in range(n):
-        vio.append(z3.And(C.fp_geq(v64, E[k]), idx < k, inrange))
+        vio.append(z3.And(C.fp_geq(v64, E[k]), idx < k, z3.Or(inrange, idx != -1)))
         vio.append(z3.And(C.fp_below(v64, E[k] - band(k, edges, dt)), idx >= k))
     if not rc:
-        vio.append(z3.And(C.fp_geq(v64, top + band(n, edges, dt)), idx != -1))
+        vio.append(z3.And(C.fp_geq(v64, top), idx != -1))
     return z3.Or(vio)
 
 
 def _run_bin(job):
     edges = job['edges']
+    oedges = job.get('oracle_edges', edges)      # the oracle may come from an independent description of the grid
     rc = job['rc']
     dt = job.get('dt', 'f8')
     kind = job['kind']
@@ -267,11 +269,13 @@ def _run_bin(job):
                     continue
                 r = P.value
                 idx = _idx_term(r.a.reshape(-1)[0])
-                st, m, t = C.solve([_violation_terms(edges, v64, idx, rc, dt)], TO, P.pc)
+                st, m, t = C.solve([_violation_terms(oedges, v64, idx, rc, dt)], TO, P.pc)
                 cex = None
                 if st == 'sat':
                     cex = {'kind': 'bin', 'edges': edges, 'rc': rc, 'dt': dt, 'v': _model_val(m, p, dt),
                            'scalar': bool(job.get('scalar'))}
+                    if oedges is not edges:
+                        cex['oracle_edges'] = oedges
                 obs.append(_finish(Obligation('half-open placement, path %d' % i, st, t, cex)))
                 if first_ok:
                     first_ok = False
